@@ -1,0 +1,8 @@
+//go:build !verif
+
+package keeper
+
+import "github.com/bianjieai/tibc-go/modules/tibc/apps/mt_transfer/types"
+
+// wrapTokenKeeper is the identity in normal builds.
+func wrapTokenKeeper(k types.MtKeeper) types.MtKeeper { return k }
